@@ -6,7 +6,7 @@
 #include <unistd.h>
 
 extern "C" {
-int c19_set_read_schedule(int, const int *); int c19_set_write_schedule(int, const int *); int c19_clear_schedules(void); int c19_fail_next_accept(int); int c19_close_eintr_once(void);
+int c19_set_read_schedule(int, const int *); int c19_set_write_schedule(int, const int *); int c19_clear_schedules(void); int c19_fail_next_accept(int); int c19_close_eintr_once(void); int c19_close_eintr_clear(void);
 int c19_injected(int); int c19_init(void); int c19_new(int, const char *, int); int c19_exists(int); int c19_open(int); int c19_close(int); int c19_set_nbio(int);
 int c19_accept(int, int); int c19_dup(int, int); int c19_del(int); int c19_fd(int); int c19_send(int, const char *, long); long c19_recv(int); const char *c19_recv_data(void);
 int c19_fd_is_open(int); const char *c19_fd_census(void);
@@ -124,7 +124,7 @@ struct Interp {
             }
             else if (n == "send") { if (c19_fd(i) >= 0) LA(c19_send(i, "ping", 4)); }
             else if (n == "recv") { if (c19_fd(i) >= 0) { LA(c19_set_nbio(i)); LA(c19_recv(i)); } }
-            else if (n == "close") { if (c19_fd(i) >= 0) { if (op.i(2) & 1) { c19_close_eintr_once(); ctx.label("close-EINTR"); } LA(c19_close(i)); VT_CHECK(ctx, c19_fd(i) < 0, "mismatch", "close-left-descriptor; after close() the object still refers to descriptor " << c19_fd(i)); } }
+            else if (n == "close") { if (c19_fd(i) >= 0) { if (op.i(2) & 1) { c19_close_eintr_once(); ctx.label("close-EINTR"); } LA(c19_close(i)); c19_close_eintr_clear(); VT_CHECK(ctx, c19_fd(i) < 0, "mismatch", "close-left-descriptor; after close() the object still refers to descriptor " << c19_fd(i)); } }
             else if (n == "dup") { if (i != j) { int r = LA(c19_dup(i, j)); is_listener[j] = is_listener[i]; if (r) { ctx.label("dup"); if (c19_fd(i) >= 0) VT_CHECK(ctx, c19_fd(j) != c19_fd(i), "mismatch", "dup-shares-descriptor; the copy uses the original's descriptor " << c19_fd(i)); } } }
             else if (n == "del") LA(c19_del(i));
             check_objects(("after " + n).c_str());
@@ -139,6 +139,8 @@ struct Interp {
         ht_install();
         c19_init();
         enter();
+        // a process started without standard input: the first descriptor the library opens is 0, a value like any other
+        for (auto &op : c) if (op.name == "nostdin") { close(0); ctx.label("descriptor-0-free-for-the-library"); break; }
         if (!c.empty() && c[0].name == "xfer") { for (size_t at = 0; at < c.size(); at++) { ctx.step((int)at); if (c[at].name == "xfer") transfer(c[at]); } }
         else lifecycle(c);
         leave();
@@ -166,6 +168,7 @@ rc::Gen<Case> gen_life() {
         Case c;
         c.push_back(mk("lnew", {0, 0, 1}));
         c.push_back(mk("open", {0}));
+        bool nostdin = *range(0, 3) == 0;
         if (*range(0, 3)) { c.push_back(mk("lnew", {1, 0, 0})); c.push_back(mk("open", {1})); }
         auto ops = *rc::gen::container<std::vector<Op>>(rc::gen::exec([]() {
             int k = (int)*range(0, 19);
@@ -181,6 +184,7 @@ rc::Gen<Case> gen_life() {
             return mk("del", {i});
         }));
         for (auto &o : ops) c.push_back(o);
+        if (nostdin) c.push_back(mk("nostdin"));
         return c;
     });
 }
